@@ -62,6 +62,8 @@ TOL = {                     # measured worst over all 600 cases, seeds 0/1/2  ->
     "robust_vs_plain": 1.2e-1,  # 3.7e-3 (1.5)
     "lap": 4e-2,            # 1.4e-3   (1.46) interpolate_laplacian vs symbolic Laplacian, 0.3 <= r <= 3
 }
+TOL.update(XTOL := {})
+
 # Margins are 1.5 orders (not 3) on the sound side because the solvers' own accuracy on these grids is
 # 1e-5..1e-3; the defects targeted (4 pi / sign, r factor, boundary value, l(l+1), weights omitted, core
 # normalisation, dropped term) change the result by 1e-1..1 (selftest), i.e. >= 1.5 orders above.
@@ -114,15 +116,23 @@ class Oracles:
         return c * np_eval(self._chan(term["l"], term["i"])["lap"], env)
 
 
-def spec_run(wd):
+def spec_run(wd, seed=0):
     with open(c17.JSON_PARAMS) as f:
         table = json.load(f)
     keys = list(table)
     c17.write_tables(wd, keys, [len(table[k]["alphas_s"]) for k in keys], maxalpha=[max(table[k]["alphas_s"]) for k in keys])
-    res = tlc.run_tlc("Poisson", "MC_Poisson.cfg", wd, workers=8, timeout=900).require_ok("MC_Poisson")
+    # PoissonX.tla EXTENDS Poisson.tla: MC_PoissonX.cfg checks every invariant of MC_Poisson.cfg plus the extended
+    # configuration space / laws; XSeed = VERIF_SEED selects the seed-drawn exponents, coefficients, centres, options
+    (wd / "Tables_poissonx.tla").write_text("---- MODULE Tables_poissonx ----\n\\* generated by vf/props/c16.py\n"
+                                            f"XSeed == {int(seed) % 1000003}\n====\n")
+    res = tlc.run_tlc("PoissonX", "MC_PoissonX.cfg", wd, workers=8, timeout=900).require_ok("MC_PoissonX")
     cases = [t[1] for t in tlcx.tagged(res.stdout, "CASE")]
     if res.status == "ok" and (not cases or len(cases) != res.stdout.count('"CASE"')):
         raise tlc.MachineryError("could not parse the cases emitted by Poisson.tla")
+    xcases = [t[1] for t in tlcx.tagged(res.stdout, "XCASE")]
+    if res.status == "ok" and (not xcases or len(xcases) != res.stdout.count('"XCASE"')):
+        raise tlc.MachineryError("could not parse the cases emitted by PoissonX.tla")
+    cases = cases + xcases
     cases.sort(key=lambda c: c["id"])
     with open(wd / "coulomb_trees.json") as f:
         ctrees = json.load(f)
@@ -251,6 +261,423 @@ def run_case(case, orc, table, seed):
     return out
 
 
+# ---------------------------------------------------------------------------------------------
+# Extended configuration space (PoissonX.tla, case ids >= 1000)
+
+_RULES = ("GaussLegendre", "GaussChebyshev", "GaussChebyshevType2", "FejerFirst", "Trapezoidal", "ClenshawCurtis", "UniformInteger")
+
+
+def x_transform(g):
+    from grid import rtransform as rt
+    rmin, big = float(fr(g["rmin"])), float(fr(g["R"]))
+    m = g["map"]
+    if m == "Becke":
+        return rt.BeckeRTransform(rmin, big)
+    if m == "Handy2":
+        return rt.HandyRTransform(rmin, big, 2)
+    if m == "HandyMod2":
+        return rt.HandyModRTransform(rmin, big, 2)
+    if m == "LinFinite":
+        return rt.LinearFiniteRTransform(rmin, big)
+    if m == "LinInf":
+        return rt.LinearInfiniteRTransform(rmin, big)
+    raise tlc.MachineryError(f"unknown radial map {m}")
+
+
+def x_rgrid(g):
+    from grid import onedgrid
+    if g["rule"] not in _RULES:
+        raise tlc.MachineryError(f"unknown 1-D rule {g['rule']}")
+    return x_transform(g).transform_1d_grid(getattr(onedgrid, g["rule"])(int(g["n"])))
+
+
+def x_atomgrid(case, j, centre):
+    """Atomic grid of atom j as the case describes it (uniform degree, or sector-wise degrees by either constructor)."""
+    from grid.atomgrid import AtomGrid
+    g = case["grids"][j]
+    rg = x_rgrid(g)
+    rot = int(case["rot"]) + j
+    pr = case["pruned"]
+    if not pr["degs"]:
+        return AtomGrid(rg, degrees=[int(g["deg"])], center=centre, rotate=rot)
+    cuts = np.array([float(fr(q)) for q in pr["cuts"]])
+    degs = [int(d) for d in pr["degs"]]
+    if case["ctor"] == "from_pruned":
+        ag = AtomGrid.from_pruned(rg, 1.0, r_sectors=cuts, d_sectors=degs, center=centre, rotate=rot)
+    else:
+        # PoissonX.tla: the shell of radius r gets degs[1 + #{j : cuts[j] < r}]
+        ag = AtomGrid(rg, degrees=[degs[int(np.searchsorted(cuts, r, side="left"))] for r in rg.points], center=centre, rotate=rot)
+    if not set(int(d) for d in ag.degrees) <= set(degs):
+        raise tlc.MachineryError(f"pruned grid has degrees {sorted(set(ag.degrees))}, the case admits {degs}")
+    return ag
+
+
+def _form_of(a, form):
+    """The same numbers in another representation (PoissonX.tla XFuncForms / XPointForms)."""
+    a = np.asarray(a, dtype=float)
+    if form == "float32":
+        return a.astype(np.float32)
+    if form == "list":
+        return a.tolist()
+    if form == "longdouble":
+        return a.astype(np.longdouble)
+    if form == "readonly":
+        b = a.copy()
+        b.flags.writeable = False
+        return b
+    if form == "strided":
+        return np.repeat(a, 2, axis=0)[::2]
+    if form == "fortran":
+        return np.asfortranarray(a)
+    if form in ("same-object-twice", "float64"):
+        return a.copy()
+    raise tlc.MachineryError(f"unknown form {form}")
+
+
+def run_xcase(case, orc, table, seed):
+    """One case of PoissonX.tla.  Returns [(clause, deviation, detail)]."""
+    from grid.atomgrid import AtomGrid
+    from grid.becke import BeckeWeights
+    from grid.molgrid import MolGrid
+    from grid.poisson import interpolate_laplacian, solve_poisson_bvp, solve_poisson_ivp
+    from grid.robust_poisson import solve_poisson_robust
+    from grid.rtransform import InverseRTransform
+
+    kind, cid = case["kind"], int(case["id"])
+    atoms = [vec(a) for a in case["atoms"]]
+    nat = len(atoms)
+    ags = [x_atomgrid(case, j, a) for j, a in enumerate(atoms)]
+    if nat == 1:
+        grid = ags[0]
+    else:
+        grid = MolGrid(np.array([int(z) for z in case["atnums"]]), ags, BeckeWeights(order=3), store=True)
+    itf = InverseRTransform(x_transform(case["ode"]))
+    origin = bool(case["origin"])
+    rcut = float(case["rcut"]) if case["rcut"] else 1e6
+
+    def nrad(ag):
+        pts = ag.rgrid.points
+        radial = np.hstack(([0.0], pts)) if (origin and np.all(pts > 0.0)) else pts
+        return int(np.sum(radial <= rcut))
+
+    same_n = len({nrad(a) for a in ags}) == 1
+    # one initial guess serves every atom only if all atoms have the same number of radial points; otherwise the
+    # library's default guess (np.random.rand) is used with a fixed NumPy seed (the problems are linear: the
+    # converged solution does not depend on the guess - clause defaults_eq measures that)
+    ode = {"tol": BVP_TOL, "initial_guess_y": np.zeros((2, nrad(ags[0])))} if same_n else {"tol": BVP_TOL}
+    kw = {"include_origin": origin, "ode_params": ode}
+    if case["rcut"]:
+        kw["remove_large_pts"] = rcut
+    if case["boundary"] != "auto":
+        kw["boundary"] = float(fr(case["boundary"]))
+    terms = case["terms"]
+    owner = [atoms[k % nat] for k in range(len(terms))]
+    pseed = seed * 1000 + cid
+    P = eval_points(atoms, pseed)
+    Pl = eval_points(atoms, pseed, lo=0.3, hi=3.0)
+    Pi = eval_points(atoms, pseed, lo=0.2, hi=8.0)
+    out = []
+
+    def dens(ts, ows, pts):
+        return sum(orc.rho(t, a, pts) for t, a in zip(ts, ows))
+
+    def pot(ts, ows, pts):
+        return sum(orc.pot(t, a, pts) for t, a in zip(ts, ows))
+
+    def lapl(ts, ows, pts):
+        return sum(orc.lap(t, a, pts) for t, a in zip(ts, ows))
+
+    def rel(got, ex):
+        return float(np.max(np.abs(np.asarray(got, dtype=float) - ex)) / np.max(np.abs(ex)))
+
+    def reldiff(a, b):
+        a, b = np.asarray(a, dtype=float), np.asarray(b, dtype=float)
+        if a.shape != b.shape:
+            return float("inf")
+        return float(np.max(np.abs(a - b)) / max(np.max(np.abs(b)), 1e-300))
+
+    def bvp(f, **over):
+        np.random.seed(20240916)
+        k2 = dict(kw)
+        k2.update(over)
+        return solve_poisson_bvp(grid, f, itf, **k2)
+
+    def unchanged(tag, *pairs):
+        bad = [n for n, now, before in pairs if not _same(now, before)]
+        out.append(("unchanged", 1.0 if bad else 0.0, f"{tag}: {bad}" if bad else None))
+
+    spherical = all(t["l"] == 0 for t in terms)
+    rho = dens(terms, owner, grid.points)
+    rho0, P0 = rho.copy(), P.copy()
+    with warnings.catch_warnings():
+        warnings.simplefilter("ignore")
+        if kind == "x_pruned":
+            v = bvp(rho)
+            out.append(("bvp_chan", rel(v(P), pot(terms, owner, P)), None))
+            Pl0 = Pl.copy()
+            if case["lap"]:
+                lap = interpolate_laplacian(grid, rho)
+                out.append(("lap", rel(lap(Pl), lapl(terms, owner, Pl0)), None))
+            unchanged("bvp/lap", ("density", rho, rho0), ("points", P, P0), ("lap points", Pl, Pl0))
+        elif kind == "x_hetmol":
+            ode0 = dict(ode)
+            v = bvp(rho)
+            out.append(("mol_het", rel(v(P), pot(terms, owner, P)), None))
+            unchanged("bvp on a molecular grid", ("density", rho, rho0), ("points", P, P0), ("ode_params", ode, ode0))
+            if cid % 2 == 0:
+                a, b = float(fr(case["lin"][0])), float(fr(case["lin"][1]))
+                r1, r2 = dens(terms[:1], owner[:1], grid.points), dens(terms[1:], owner[1:], grid.points)
+                v12, v1, v2 = bvp(a * r1 + b * r2)(P), bvp(r1)(P), bvp(r2)(P)
+                out.append(("lin", float(np.max(np.abs(v12 - a * v1 - b * v2)) / (np.max(np.abs(a * v1)) + np.max(np.abs(b * v2)))), None))
+            else:
+                lap = interpolate_laplacian(grid, rho)
+                out.append(("lap_het", rel(lap(Pl.copy()), lapl(terms, owner, Pl)), None))
+        elif kind == "x_law":
+            atnums = np.array([_Z[e] for e in case["elements"]])
+            atcoords = np.array(atoms)
+            cs = float(fr(case["corescale"]))
+            cts, cows = [], []
+            for e, a in zip(case["elements"], atoms):
+                for c, al in zip(table[e]["coeffs_s"], table[e]["alphas_s"]):
+                    cts.append({"l": 0, "i": 1, "c": _q(c), "alpha": _q(al), "d": [[0, 1]] * 3})
+                    cows.append(a)
+            core = dens(cts, cows, grid.points)
+            full = cs * core + rho
+            full0 = full.copy()
+            vr = solve_poisson_robust(grid, full, itf, atnums, atcoords, **kw)(P)
+            vb = bvp(full - core)(P)
+            out.append(("robust_law", float(np.max(np.abs(vr - pot(cts, cows, P) - vb)) / np.max(np.abs(vr))), None))
+            a = float(fr(case["aff"]))
+            v2 = solve_poisson_robust(grid, rho, itf, atnums, atcoords, **kw)(P)
+            v12 = solve_poisson_robust(grid, a * full + (1 - a) * rho, itf, atnums, atcoords, **kw)(P)
+            out.append(("robust_affine", float(np.max(np.abs(v12 - a * vr - (1 - a) * v2))
+                                               / (np.max(np.abs(a * vr)) + np.max(np.abs((1 - a) * v2)))), None))
+            unchanged("robust", ("density", full, full0), ("points", P, P0), ("atcoords", atcoords, np.array(atoms)),
+                      ("atnums", atnums, np.array([_Z[e] for e in case["elements"]])))
+        elif kind == "x_defaults":
+            if not np.max(grid.rgrid.points) <= 1e6:
+                raise tlc.MachineryError("x_defaults needs a radial grid without points beyond 1e6")
+            ex = pot(terms, owner, P)
+            vals = []
+            for ov in case["optvariants"]:
+                k2 = {}
+                if ov["boundary"] == "None":
+                    k2["boundary"] = None
+                if ov["include_origin"] == "True":
+                    k2["include_origin"] = True
+                if ov["remove_large_pts"] == "1e6":
+                    k2["remove_large_pts"] = 1e6
+                elif ov["remove_large_pts"] == "None":
+                    k2["remove_large_pts"] = None
+                if ov["ode_params"] == "None":
+                    k2["ode_params"] = None
+                elif ov["ode_params"] == "empty":
+                    k2["ode_params"] = {}
+                np.random.seed(20240916)
+                vals.append(np.asarray(solve_poisson_bvp(grid, rho, itf, **k2)(P), dtype=float))
+            out.append(("bvp_s", rel(vals[0], ex), "no options given"))
+            out.append(("defaults_eq", max(reldiff(v, vals[0]) for v in vals[1:]), None))
+            exi = pot(terms, owner, Pi)
+            gi = dict(case, grids=[case["ivpgrid"]], pruned={"cuts": [], "degs": []})
+            agi = x_atomgrid(gi, 0, atoms[0])
+            itfi = InverseRTransform(x_transform(case["ivpgrid"]))
+            rhoi = dens(terms, owner, agi.points)
+            worst, which = 0.0, None
+            for iv in case["ivpvariants"]:
+                k2 = {"r_interval": (float(fr(iv["b"])), float(fr(iv["a"])))}
+                if iv["method"] != "omit":
+                    k2["ode_params"] = {"method": iv["method"]}
+                d = rel(solve_poisson_ivp(agi, rhoi, itfi, **k2)(Pi), exi)
+                if not d <= worst:
+                    worst, which = d, f"r_interval={k2['r_interval']}, method={iv['method']}"
+            out.append(("ivp_s", worst, which))
+            lap = interpolate_laplacian(grid, rho)
+            l0 = lap(Pl.copy())
+            dev = 0.0
+            for n, c in enumerate(case["cutoffs"]):
+                if c == [0, 1]:
+                    got = lap(Pl.copy())
+                elif n % 2:
+                    got = lap(Pl.copy(), float(fr(c)))
+                else:
+                    got = lap(Pl.copy(), cut_off=float(fr(c)))
+                dev = max(dev, reldiff(got, l0))
+            out.append(("lap_cut", dev, None))
+            unchanged("defaults", ("density", rho, rho0), ("points", P, P0))
+        elif kind == "x_forms":
+            _x_forms(case, out, grid, ags, itf, kw, rho, P, Pl, Pi, spherical, table, atoms, reldiff, bvp)
+            unchanged("forms", ("density", rho, rho0), ("points", P, P0))
+        elif kind == "x_pts":
+            v = bvp(rho)
+            suf = "_mol" if nat > 1 else ""
+            for ps in case["pointsets"]:
+                if ps["name"] == "centre":
+                    pts = np.array(atoms)
+                else:
+                    pts = eval_points(atoms, pseed + 7, lo=float(fr(ps["lo"])), hi=float(fr(ps["hi"])))
+                got = np.asarray(v(pts.copy()), dtype=float)
+                ex = pot(terms, owner, pts)
+                dev = rel(got, ex) if np.all(np.isfinite(got)) else float("inf")
+                out.append((f"pts_{ps['name']}{suf}", dev, None))
+            out.append(("repeat", reldiff(v(P), v(P)), "same callable, same points, twice"))
+            unchanged("points", ("density", rho, rho0), ("points", P, P0))
+        elif kind == "x_tf":
+            v = bvp(rho)
+            out.append(("bvp_s" if spherical else "bvp_chan", rel(v(P), pot(terms, owner, P)), None))
+            if case["ivp"]:
+                vi = solve_poisson_ivp(grid, rho, itf, r_interval=(1000.0, 1e-3))
+                out.append(("ivp_tf", rel(vi(Pi), pot(terms, owner, Pi)), None))
+            if case["lap"]:
+                lap = interpolate_laplacian(grid, rho)
+                out.append(("lap", rel(lap(Pl.copy()), lapl(terms, owner, Pl)), None))
+            unchanged("transforms", ("density", rho, rho0), ("points", P, P0))
+        elif kind == "x_lin":
+            a, b = float(fr(case["lin"][0])), float(fr(case["lin"][1]))
+            r1, r2 = dens(terms[:1], owner[:1], grid.points), dens(terms[1:], owner[1:], grid.points)
+            r12 = a * r1 + b * r2
+            sol = case["solver"]
+            if sol == "ivp":
+                f = lambda d: solve_poisson_ivp(grid, d, itf, r_interval=(1000.0, 1e-3))(Pi)
+                name = "lin_ivp"
+            elif sol == "lap":
+                f = lambda d: interpolate_laplacian(grid, d)(Pl.copy())
+                name = "lin_lap"
+            else:
+                f = lambda d: bvp(d)(P)
+                name = "lin"
+            v12, v1, v2 = f(r12), f(r1), f(r2)
+            out.append((name, float(np.max(np.abs(v12 - a * v1 - b * v2)) / (np.max(np.abs(a * v1)) + np.max(np.abs(b * v2)))), None))
+            if sol == "bvp":
+                out.append(("zero", float(np.max(np.abs(f(np.zeros(grid.size))))), "zero density"))
+                out.append(("bvp_s" if spherical and nat == 1 else ("mol" if nat > 1 else "bvp_chan"),
+                            rel(v12, a * pot(terms[:1], owner[:1], P) + b * pot(terms[1:], owner[1:], P)), None))
+        else:
+            raise tlc.MachineryError(f"unknown case kind {kind}")
+    return out
+
+
+def _same(now, before):
+    if isinstance(before, dict):
+        return isinstance(now, dict) and sorted(now) == sorted(before) and all(_same(now[k], before[k]) for k in before)
+    a, b = np.asarray(now), np.asarray(before)
+    return a.shape == b.shape and a.dtype == b.dtype and bool(np.all(a == b))
+
+
+def _x_forms(case, out, grid, ags, itf, kw, rho, P, Pl, Pi, spherical, table, atoms, reldiff, bvp):
+    """FormEquiv / Purity of PoissonX.tla: every representation of the arguments against the float64 ndarray call."""
+    from grid.becke import BeckeWeights
+    from grid.molgrid import MolGrid
+    from grid.poisson import interpolate_laplacian, solve_poisson_bvp, solve_poisson_ivp
+    from grid.robust_poisson import solve_poisson_robust
+
+    worst = {5: 0.0, 12: 0.0, "ivp": 0.0}
+    what = {5: None, 12: None, "ivp": None}
+
+    def note(prec, dev, label):
+        if label.startswith("ivp:"):
+            prec = "ivp"                 # PoissonX.tla: judged with the accuracy of the initial-value route
+        if not dev <= worst[prec]:
+            worst[prec], what[prec] = dev, label
+
+    ivp = (lambda f: solve_poisson_ivp(grid, f, itf, r_interval=(1000.0, 1e-3))) if spherical else None
+    solvers = [("bvp", bvp, P), ("lap", lambda f: interpolate_laplacian(grid, f), Pl)]
+    if ivp is not None:
+        solvers.append(("ivp", ivp, Pi))
+    base = {n: (s(rho), pts) for n, s, pts in solvers}
+    ref = {n: np.asarray(c(pts.copy()), dtype=float) for n, (c, pts) in base.items()}
+    # the density in other representations
+    for k, ff in enumerate(case["funcforms"]):
+        for n, s, pts in solvers:
+            if n != "bvp" and (k + int(case["id"])) % 2:          # bvp sees every form, the others every second one
+                continue
+            if n == "lap" and ff["form"] == "float32":             # PoissonX.tla: not in the Laplacian's class
+                continue
+            arg = _form_of(rho, ff["form"])
+            keep = np.array(arg, dtype=float)
+            try:
+                got = s(arg)(pts.copy())
+                if ff["form"] == "same-object-twice":
+                    got = s(arg)(pts.copy())                       # the same object (and the same option dictionary) again
+            except Exception as e:  # noqa: BLE001
+                note(ff["prec"], float("inf"), f"{n}: density as {ff['form']}: {type(e).__name__}: {e}"[:200])
+                continue
+            note(ff["prec"], reldiff(got, ref[n]), f"{n}: density as {ff['form']}")
+            if not _same(np.array(arg, dtype=float), keep):
+                out.append(("unchanged", 1.0, f"{n}: density passed as {ff['form']} was modified"))
+    # the evaluation points in other representations
+    for ff in case["pointforms"]:
+        for n, (c, pts) in base.items():
+            arg = pts[:1].copy() if ff["form"] == "single-point" else _form_of(pts, ff["form"])
+            keep = np.array(arg, dtype=float)
+            want = ref[n][:1] if ff["form"] == "single-point" else ref[n]
+            try:
+                got = c(arg)
+            except Exception as e:  # noqa: BLE001
+                note(ff["prec"], float("inf"), f"{n}: points as {ff['form']}: {type(e).__name__}: {e}"[:200])
+                continue
+            note(ff["prec"], reldiff(got, want), f"{n}: points as {ff['form']}")
+            if not _same(np.array(arg, dtype=float), keep):
+                out.append(("unchanged", 1.0, f"{n}: points passed as {ff['form']} were modified"))
+    # the atomic grid wrapped as a molecular grid of one atom
+    for ff in case["gridforms"]:
+        mg = MolGrid(np.array([1]), [ags[0]], BeckeWeights(order=3), store=True)
+        np.random.seed(20240916)
+        note(ff["prec"], reldiff(solve_poisson_bvp(mg, rho, itf, **kw)(P), ref["bvp"]), "bvp: " + ff["form"])
+        note(ff["prec"], reldiff(interpolate_laplacian(mg, rho)(Pl.copy()), ref["lap"]), "lap: " + ff["form"])
+    # second evaluation of the same callables
+    out.append(("repeat", max(reldiff(c(pts.copy()), ref[n]) for n, (c, pts) in base.items()), "callables evaluated a second time"))
+    # the robust solver: atnums / atcoords / density / points / basis in other containers
+    el = case["elements"][0]
+    atnums, atcoords = np.array([_Z[el]]), np.array(atoms)
+    split2 = bool(case["split2"])
+    dens = rho + 0.5 * sum(float(c) * (float(al) / np.pi) ** 1.5 * np.exp(-float(al) * np.sum((grid.points - atoms[0]) ** 2, axis=1))
+                           for c, al in zip(table[el]["coeffs_s"], table[el]["alphas_s"]))
+    basis = np.array([1.0, 2.0, 5.0, 20.0, 100.0])
+
+    def rob(d=dens, z=atnums, xyz=atcoords, pts=P, **extra):
+        return np.asarray(solve_poisson_robust(grid, d, itf, z, xyz, split2=split2, **extra, **kw)(pts), dtype=float)
+
+    r0 = rob()
+    rb = rob(alphas_basis=basis) if split2 else None
+    for ff in case["robustforms"]:
+        f = ff["form"]
+        try:
+            if f == "atnums-list":
+                got, want = rob(z=[int(_Z[el])]), r0
+            elif f == "atnums-int32":
+                got, want = rob(z=atnums.astype(np.int32)), r0
+            elif f == "atnums-float":
+                got, want = rob(z=atnums.astype(float)), r0
+            elif f == "atcoords-list":
+                got, want = rob(xyz=atcoords.tolist()), r0
+            elif f == "density-list":
+                got, want = rob(d=dens.tolist()), r0
+            elif f == "density-float32":
+                got, want = rob(d=dens.astype(np.float32)), r0
+            elif f == "points-list":
+                got, want = rob(pts=P.tolist()), r0
+            elif f == "basis-list":
+                if not split2:
+                    continue
+                got, want = rob(alphas_basis=basis.tolist()), rb
+            elif f == "basis-int":
+                if not split2:
+                    continue
+                got, want = rob(alphas_basis=basis.astype(int)), rb
+            else:
+                raise tlc.MachineryError(f"unknown robust form {f}")
+        except tlc.MachineryError:
+            raise
+        except Exception as e:  # noqa: BLE001
+            note(ff["prec"], float("inf"), f"robust: {f}: {type(e).__name__}: {e}"[:200])
+            continue
+        note(ff["prec"], reldiff(got, want), f"robust: {f}")
+    out.append(("form_exact", worst[12], what[12]))
+    out.append(("form_single", worst[5], what[5]))
+    if ivp is not None:
+        out.append(("form_ivp", worst["ivp"], what["ivp"]))
+
+
 _Z = {"H": 1, "C": 6, "N": 7, "O": 8, "Cl": 17}
 
 
@@ -264,7 +691,7 @@ def _worker(args):
     case, seed = args
     t0 = time.time()
     try:
-        res = run_case(case, _G["orc"], _G["table"], seed)
+        res = (run_xcase if int(case["id"]) >= 1000 else run_case)(case, _G["orc"], _G["table"], seed)
         return case["id"], res, None, time.time() - t0
     except tlc.MachineryError:
         raise
@@ -292,6 +719,28 @@ def select(cases, tier, rng):
     for k in kinds:
         pool = by[k] if k != "lap" else [c for c in by[k] if any(t["l"] > 0 for t in c["terms"])]   # exercises l(l+1)
         picked.append(rng.choice(pool))
+    # PoissonX.tla (drawn after the picks above, which therefore stay what they were): one or two cases of every kind,
+    # chosen so that the sub-dimension a kind exists for is present in every quick run
+    def charge(c):
+        return sum(fr(t["c"]) for t in c["terms"] if t["l"] == 0)
+
+    def pick(kind, pred=None):
+        pool = [c for c in by[kind] if pred is None or pred(c)] or by[kind]
+        picked.append(rng.choice(pool))
+
+    pick("x_pruned")
+    pick("x_hetmol", lambda c: c["id"] % 2 == 0)                               # + linearity on the molecular grid
+    pick("x_hetmol", lambda c: c["id"] % 2 == 1 and len(c["atoms"]) == 3)      # + Laplacian, three atoms
+    pick("x_law", lambda c: len(c["atoms"]) == 1 and (c["rcut"] or c["boundary"] != "auto"))   # options are forwarded
+    pick("x_law", lambda c: len(c["atoms"]) == 2)
+    pick("x_defaults", lambda c: charge(c) < 0)                                # sign of the boundary value
+    pick("x_forms", lambda c: c["split2"] and all(t["l"] == 0 for t in c["terms"]))   # initial-value route and basis forms
+    pick("x_pts", lambda c: len(c["atoms"]) == 1 and c["origin"])
+    pick("x_pts", lambda c: len(c["atoms"]) == 2)
+    pick("x_tf", lambda c: c["origin"])
+    pick("x_tf", lambda c: not c["origin"])
+    pick("x_lin", lambda c: c["solver"] in ("ivp", "lap"))
+    pick("x_lin", lambda c: c["solver"] == "bvp")
     return picked
 
 
@@ -299,8 +748,8 @@ def run(tier: str, _cases=None) -> int:
     rep = Report(PROP, tier, "exploration")
     rng = random.Random(rep.seed)
     wd = tlc.scratch(f"{PROP}-{tier}")
-    res, cases, orc, table = spec_run(wd)
-    rep.tlc(res, "MC_Poisson")
+    res, cases, orc, table = spec_run(wd, rep.seed)
+    rep.tlc(res, "MC_PoissonX")
     if res.status == "violation":
         st = tlc.last_state(res)
         rep.violation(f"model:{','.join(res.violated)}", f"TLC: invariant(s) {res.violated} of Poisson.tla violated; last state {st}", st)
@@ -326,28 +775,31 @@ def run(tier: str, _cases=None) -> int:
     import multiprocessing as mp
     calib = {}
     times = {}
-    with mp.get_context("fork").Pool(16 if tier == "thorough" else 11) as pool:
+    with mp.get_context("fork").Pool(8) as pool:
         results = list(pool.imap_unordered(_worker, [(c, rep.seed) for c in sel]))
     bycase = {c["id"]: c for c in sel}
     for cid, out, err, secs in sorted(results, key=lambda r: r[0]):
         c = bycase[cid]
-        brief = {"id": cid, "kind": c["kind"], "grid": c["grid"], "atoms": c["atoms"], "terms": c["terms"],
+        brief = {"id": cid, "kind": c["kind"], "grid": c["grid"] if "grid" in c else c["grids"], "atoms": c["atoms"], "terms": c["terms"],
                  "origin": c["origin"], "ode": c["ode"], "rcut": c["rcut"], "boundary": c["boundary"], "split2": c["split2"], "elements": c["elements"],
-                 "results": [(k, d) for k, d, _ in out], "exception": err, "seconds": round(secs, 2)}
+                 "results": [(k, d) if w is None else (k, d, w) for k, d, w in out], "exception": err, "seconds": round(secs, 2)}
+        if cid >= 1000:
+            brief.update({k: c[k] for k in ("rot", "atnums", "pruned", "ctor", "lin", "aff", "solver", "corescale", "pointsets")})
+            brief["seed"] = rep.seed
         rep.evaluated(1, (cid,))
         rep.sample(brief)
         times[c["kind"]] = max(times.get(c["kind"], 0.0), secs)
         if err is not None:
             rep.violation(f"{c['kind']}:case={cid}:raises", f"case {cid} ({c['kind']}): the library raised {err}", brief)
             continue
-        for clause, dev, _ in out:
+        for clause, dev, why in out:
             g = calib.setdefault(clause, [0.0, 0])
             g[0] = max(g[0], dev) if np.isfinite(dev) else float("inf")
             g[1] += 1
             if not dev <= TOL[clause]:
                 rep.violation(f"{clause}:case={cid}",
                               f"case {cid} ({c['kind']}), clause {clause}: relative deviation {dev:.3g} from the specification's "
-                              f"oracle exceeds {TOL[clause]:g}", brief)
+                              f"oracle exceeds {TOL[clause]:g}" + (f" [{why}]" if why else ""), brief)
     rep.set("calibration", {k: {"worst": v[0], "n": v[1], "accepted": TOL[k]} for k, v in sorted(calib.items())})
     rep.set("max_seconds_per_kind", {k: round(v, 1) for k, v in times.items()})
     rep.set("rule", "one evaluation = one case (grid, centres, density, options) solved and compared at 30 points per atom; "
@@ -389,7 +841,55 @@ def selftest(tier: str = "quick") -> int:
         ("robust-core-potential-last-gaussian-dropped", src(R, "centers_rep = np.tile(center, (len(coeffs_s), 1))\n            v_core += coulomb_potential(\n                points,\n                centers_s=centers_rep,\n                coeffs_s=coeffs_s,\n                alphas_s=alphas_s,",
                                                             "centers_rep = np.tile(center, (len(coeffs_s) - 1, 1))\n            v_core += coulomb_potential(\n                points,\n                centers_s=centers_rep,\n                coeffs_s=coeffs_s[:-1],\n                alphas_s=alphas_s[:-1],")),
     ]
-    return run_mutants(PROP, run, tier, mutants)
+    # ---- mutants for the clauses of PoissonX.tla --------------------------------------------------------------
+    A = "grid.atomgrid"
+    ag_rb = (("grid.poisson", "AtomGrid"), ("grid.molgrid", "AtomGrid"), ("grid.robust_poisson", "AtomGrid"))
+    helper_idx = "        start_index = molgrid.indices[i]\n        final_index = molgrid.indices[i + 1]\n        atom_grid = molgrid[i]\n\n        # Add the interpolation"
+    pub_sig = ("def solve_poisson_bvp(\n    molgrid: MolGrid | AtomGrid,\n    func_vals: np.ndarray,\n    transform: BaseTransform,\n"
+               "    boundary: float | type(None) = None,\n    include_origin: bool = True,\n    remove_large_pts: float = 1e6,")
+    centre_old = ('        with np.errstate(divide="ignore"):\n            r_values = np.array([spline(r_pts) / r_pts for spline in splines])\n'
+                  "            # Since spline(r=0) = 0, then set points to zero there.\n            r_values[:, np.abs(r_pts) < 1e-300] = 0.0\n")
+    mutants += [
+        # pruned atomic grids: channels a low-degree shell cannot integrate are no longer zeroed (x_pruned)
+        ("pruned-shell-channels-not-zeroed", src(A, "                radial_components[num_nonzero_sph:, i] = 0.0", "                pass", ag_rb)),
+        ("pruned-shell-keeps-one-l-too-few", src(A, "num_nonzero_sph = (self.degrees[i] // 2 + 1) ** 2", "num_nonzero_sph = (self.degrees[i] // 2) ** 2", ag_rb)),
+        # molecular grids whose atoms differ in size (x_hetmol)
+        ("molecular-slices-use-size-of-first-atom", src(P, helper_idx, helper_idx.replace("molgrid.indices[i]", "i * molgrid[0].size").replace("molgrid.indices[i + 1]", "(i + 1) * molgrid[0].size"), rb)),
+        ("density-weighted-in-place", src(P, "    func_vals_atom = func_vals * molgrid.aim_weights\n    # Go through each atomic grid and construct interpolation of f*w_n.\n    interpolate_funcs = []\n    for i in range(len(molgrid.atcoords)):\n        # Get the atomic grid",
+                                          "    func_vals *= molgrid.aim_weights\n    func_vals_atom = func_vals\n    # Go through each atomic grid and construct interpolation of f*w_n.\n    interpolate_funcs = []\n    for i in range(len(molgrid.atcoords)):\n        # Get the atomic grid", rb)),
+        # robust-solver law for every option record (x_law)
+        ("robust-does-not-forward-boundary-and-cutoff", src(R, "solve_poisson_bvp(molgrid, residual, transform, **bvp_kwargs)",
+                                                            "solve_poisson_bvp(molgrid, residual, transform, **{k: v for k, v in bvp_kwargs.items() if k not in ('boundary', 'remove_large_pts')})")),
+        ("robust-clips-negative-residual", src(R, "    # SPLIT 2: Bonding/Residual Fitting (Optional)", "    residual = np.clip(residual, 0.0, None)\n    # SPLIT 2: Bonding/Residual Fitting (Optional)")),
+        # documented defaults (x_defaults)
+        ("default-remove_large_pts-1e3", src(P, pub_sig, pub_sig.replace("remove_large_pts: float = 1e6", "remove_large_pts: float = 1e3"), rb)),
+        ("remove_large_pts-None-not-handled", src(P, "    if remove_large_pts is not None:\n        indices = np.where", "    if True:\n        indices = np.where", rb)),
+        ("boundary-value-loses-its-sign-ivp", src(P, "    r_max = r_interval[0]\n    boundary = atomgrid.integrate(func_vals) / sph_o_l[0, 0]", "    r_max = r_interval[0]\n    boundary = abs(atomgrid.integrate(func_vals)) / sph_o_l[0, 0]")),
+        ("boundary-value-loses-its-sign-bvp", src(P, "        boundary = atomgrid.integrate(func_vals) / sph_o_l[0, 0]\n\n    # Check if the domain",
+                                                  "        boundary = abs(atomgrid.integrate(func_vals)) / sph_o_l[0, 0]\n\n    # Check if the domain", rb)),
+        ("boundary-value-never-zero", src(P, "        boundary = atomgrid.integrate(func_vals) / sph_o_l[0, 0]\n\n    # Check if the domain",
+                                          "        boundary = (atomgrid.integrate(func_vals) or 1e-8) / sph_o_l[0, 0]\n\n    # Check if the domain", rb)),
+        # representations of the arguments (x_forms)
+        ("density-must-be-an-ndarray", src(P, "    func_vals_atom = func_vals * molgrid.aim_weights\n    # Go through each atomic grid and construct interpolation of f*w_n.\n    interpolate_funcs = []\n    for i in range(len(molgrid.atcoords)):\n        # Get the atomic grid",
+                                           "    func_vals_atom = func_vals.astype(float) * molgrid.aim_weights\n    # Go through each atomic grid and construct interpolation of f*w_n.\n    interpolate_funcs = []\n    for i in range(len(molgrid.atcoords)):\n        # Get the atomic grid", rb)),
+        ("robust-points-must-be-an-ndarray", src(R, "        points = np.asarray(points, dtype=float)\n        if points.ndim", "        if points.ndim")),
+        ("robust-density-single-precision-copy", src(R, "residual = np.array(density_vals, dtype=float)", "residual = np.array(density_vals, dtype=np.float32).astype(float)")),
+        ("laplacian-centres-points-in-place", src(P, "            r_pts, theta, phi = atom_grid.convert_cartesian_to_spherical(points).T\n\n            if np.any(r_pts < cutoff):",
+                                                  "            points -= atom_grid.center\n            r_pts, theta, phi = atom_grid.convert_cartesian_to_spherical(points, center=np.zeros(3)).T\n            points += atom_grid.center * (1 + 1e-9)\n\n            if np.any(r_pts < cutoff):")),
+        # evaluation points (x_pts)
+        ("potential-zeroed-below-1e-3", src(P, "r_values[:, np.abs(r_pts) < 1e-300] = 0.0", "r_values[:, np.abs(r_pts) < 1e-3] = 0.0", rb)),
+        # linearity of the other routes (x_lin)
+        ("laplacian-of-squared-weights", src(P, "    func_vals_atom = func_vals * molgrid.aim_weights\n    # Go through each atomic grid and construct interpolation of f*w_n.\n    interpolate_funcs = []\n    for i in range(len(molgrid.atcoords)):\n        start_index",
+                                             "    func_vals_atom = func_vals * molgrid.aim_weights + 1e-6 * func_vals ** 2\n    # Go through each atomic grid and construct interpolation of f*w_n.\n    interpolate_funcs = []\n    for i in range(len(molgrid.atcoords)):\n        start_index")),
+        # the proposed repair of the known finding (gen/proposals/C16-bvp-potential-at-centre.diff) must be ACCEPTED
+        ("anti:potential-at-centre-repaired", src(P, centre_old,
+                                                  "        r_eval = np.maximum(r_pts, max(1e-6, 1e3 * rad_points[0]))\n        r_values = np.array([spline(r_eval) / r_eval for spline in splines])\n", rb)),
+    ]
+    import os
+    only = os.environ.get("C16_SELFTEST_ONLY")          # development aid: comma-separated substrings of mutant names
+    if only:
+        mutants = [m for m in mutants if any(o in m[0] for o in only.split(","))]
+    return run_mutants(PROP, run, tier, mutants, expect={"anti:potential-at-centre-repaired": 0})
 
 
 def replay(path: str) -> int:
